@@ -86,6 +86,9 @@ func c13cases(e vt.Env, yield func(vt.Case) bool) {
 			}
 		}
 	}
+	if !c13uCases(e, yield) {
+		return
+	}
 	c13parseCases(e, yield)
 }
 
